@@ -275,7 +275,7 @@ KNOWN_CLASSES = {"position is not the volume-weighted centre of mass": "F27", "o
 
 def check(ctx: vlib.Ctx) -> int:
     rng = random.Random(ctx.seed)
-    ok = vlib.prove(ctx, ["Proofs/C02.vo", "Proofs/LocateCart.vo", "Model/LocateCases.vo"], gens=[])
+    ok = vlib.prove(ctx, ["Proofs/C02.vo", "Proofs/LocateCart.vo", "Proofs/LabelClients.vo", "Proofs/LabelUnique.vo", "Model/LocateCases.vo"], gens=[])
     ctx.tie.append("hand-written model (Model/MergeLoop.v, Model/Locate.v) + correspondence on locate_droplets_in_mask; ndimage.label as checked oracle")
     lits, meta, fails = [], [], []
     nspec_bad = 0
